@@ -62,6 +62,9 @@ type Flat struct {
 	// Facts (set by SplitBools): per node, the constants known for the tracked boolean / error locals on entry
 	// (1 = true / certainly not nil, 2 = false / nil)
 	Facts map[int]map[types.Object]int8
+	// InfeasibleLoopExits: range statements whose "no more elements" edge a rule has removed after showing it
+	// infeasible; a rule that rebuilds the graph (helpers spliced in) removes it again
+	InfeasibleLoopExits []ast.Stmt
 }
 
 func (p *Prog) mayReturn(pkg *packages.Package) func(*ast.CallExpr) bool {
